@@ -34,6 +34,36 @@ type c16Cfg struct {
 	// Setters (mail.Client mode): the Client is constructed with auth-data logging ON and without debug log / logger,
 	// then configured through SetDebugLog(true), SetLogger and SetLogAuthData(false)
 	Setters bool `json:"setters,omitempty"`
+	// Toggle (smtp mode): debug logging is OFF when Auth is called and switched on while the exchange is running —
+	// inside the mechanism's Start (1), its first Next (2) or its second Next (3)
+	Toggle int `json:"toggle,omitempty"`
+}
+
+// togglingAuth wraps a mechanism and switches the client's debug log on at a given step of the exchange.
+type togglingAuth struct {
+	inner smtp.Auth
+	at    int
+	step  int
+	fired bool
+	on    func()
+}
+
+func (t *togglingAuth) hit() {
+	t.step++
+	if t.step == t.at {
+		t.fired = true
+		t.on()
+	}
+}
+
+func (t *togglingAuth) Start(si *smtp.ServerInfo) (string, []byte, error) {
+	t.hit()
+	return t.inner.Start(si)
+}
+
+func (t *togglingAuth) Next(fromServer []byte, more bool) ([]byte, error) {
+	t.hit()
+	return t.inner.Next(fromServer, more)
 }
 
 type c16Case struct {
@@ -183,7 +213,9 @@ func c16Exec(r *vf.Run, cfg c16Cfg, c *vf.Chooser) (keys, whats []string, contro
 				return
 			}
 			cl.SetLogger(lg)
-			cl.SetDebugLog(true)
+			if cfg.Toggle == 0 {
+				cl.SetDebugLog(true)
+			}
 			if cfg.LogAuth {
 				cl.SetLogAuthData()
 			}
@@ -207,7 +239,15 @@ func c16Exec(r *vf.Run, cfg c16Cfg, c *vf.Chooser) (keys, whats []string, contro
 			default:
 				a = smtp.ScramSHA256Auth(c16User, secret)
 			}
+			var tg *togglingAuth
+			if cfg.Toggle > 0 {
+				tg = &togglingAuth{inner: a, at: cfg.Toggle, on: func() { cl.SetDebugLog(true) }}
+				a = tg
+			}
 			_ = cl.Auth(a)
+			if tg != nil && !tg.fired {
+				cl.SetDebugLog(true) // the exchange ended before that step: logging starts afterwards
+			}
 			if cfg.Retry {
 				_ = cl.Auth(a)
 			}
@@ -354,7 +394,7 @@ func init() {
 	vf.Register(&vf.Check{
 		ID: "C16", Title: "authentication secrets never reach the debug log",
 		Run: func(r *vf.Run) {
-			r.SetRule("mechanism {PLAIN, LOGIN, CRAM-MD5, XOAUTH2, SCRAM-SHA-1, SCRAM-SHA-256, SCRAM-SHA-256-PLUS over real TLS} × 5 marker credentials (base64 padding 0/1/2, '='/',', Unicode, '%' format verbs) × logger {custom capturing, log.New, log.NewJSON} × {debug only, debug+WithLogAuthData as scanner control} × entry {mail.Client dial+send (configured by options, or constructed with auth-data logging on and then configured through SetLogger / SetDebugLog / SetLogAuthData(false)), smtp.Client Auth then NOOP, smtp.Client Auth, Auth again, then NOOP; each smtp.Client entry with and without a preceding Hello call} × every server script over {conforming, 535, non-base64 challenge, extra challenge, empty challenge, drop, transport write failure on the next client line} at every AUTH step and at the EHLO that precedes AUTH {ok, write failure afterwards, 502 with HELO fallback} up to the deviation bound; the log (format, arguments, formatted line, raw output, decoded JSON msg) is scanned for the secret, its base64/hex/url-base64 forms and the exact SASL response; distinct by (configuration, script)")
+			r.SetRule("mechanism {PLAIN, LOGIN, CRAM-MD5, XOAUTH2, SCRAM-SHA-1, SCRAM-SHA-256, SCRAM-SHA-256-PLUS over real TLS} × 5 marker credentials (base64 padding 0/1/2, '='/',', Unicode, '%' format verbs) × logger {custom capturing, log.New, log.NewJSON} × {debug only, debug+WithLogAuthData as scanner control} × entry {mail.Client dial+send (configured by options, or constructed with auth-data logging on and then configured through SetLogger / SetDebugLog / SetLogAuthData(false)), smtp.Client Auth then NOOP, smtp.Client Auth, Auth again, then NOOP; each smtp.Client entry with and without a preceding Hello call; debug logging off at the start of Auth and switched on inside the mechanism's Start / first Next / second Next} × every server script over {conforming, 535, non-base64 challenge, extra challenge, empty challenge, drop, transport write failure on the next client line} at every AUTH step and at the EHLO that precedes AUTH {ok, write failure afterwards, 502 with HELO fallback} up to the deviation bound; the log (format, arguments, formatted line, raw output, decoded JSON msg) is scanned for the secret, its base64/hex/url-base64 forms and the exact SASL response; distinct by (configuration, script)")
 			r.Assume("user names are not secrets", "a server that echoes credentials in its own reply text is outside the alphabet")
 			bound := 3
 			if r.Thorough {
@@ -380,6 +420,9 @@ func init() {
 								if sm && !la {
 									cfgs = append(cfgs, c16Cfg{Mech: m, Cred: cr, Logger: lg, LogAuth: la, SMTP: sm, Retry: true})
 									cfgs = append(cfgs, c16Cfg{Mech: m, Cred: cr, Logger: lg, LogAuth: la, SMTP: sm, NoHello: true})
+									for tg := 1; tg <= 3; tg++ {
+										cfgs = append(cfgs, c16Cfg{Mech: m, Cred: cr, Logger: lg, SMTP: true, Toggle: tg})
+									}
 									cfgs = append(cfgs, c16Cfg{Mech: m, Cred: cr, Logger: lg, LogAuth: la, SMTP: sm, NoHello: true, Retry: true})
 								}
 							}
